@@ -468,7 +468,16 @@ func (s *Session) onPlay(resp *Response, req *Request) (err error) {
 }
 
 func (s *Session) checkPermission(right auth.AccessRight) bool {
-	if s.authMode == auth.NoneAuth {
+	if s.wsconn != nil {
+		// a WebSocket session is authenticated by the HTTP upgrade (no digest), but
+		// its requests are still subject to the rights of that user as saved now:
+		// the upgrade only verified the pull right on the connection path, while
+		// ANNOUNCE / RECORD name any other path
+		if !config.Auth() {
+			return true
+		}
+		s.user = auth.Get(s.wsconn.Username())
+	} else if s.authMode == auth.NoneAuth {
 		return true
 	}
 
